@@ -63,6 +63,10 @@ class Color(enum.Enum):
     BLUE = 2
 
 
+class NSP:  # stands for a C++ namespace a module may declare for its enums (_object_cpp_as_py_namespace)
+    Color = Color
+
+
 @dataclass
 class Pair:
     a: int
@@ -174,6 +178,10 @@ def gen_body(rng, focus: str = "") -> Tuple[str, set]:
         body = f"({body}, Pair(G1, b=c2).b + NT(1, y=c1).y)"
     elif extra < 0.3:
         body = f"({body}, (e.met if GS == 'pt' else 0))"
+    elif extra < 0.34:
+        # enum members stay references by name (resolved by the backend); their use must not disturb anything else
+        body = rng.choice([f"({body}, (e.met if Color.RED == Color.RED else 0))", f"({body}, Color.BLUE.value + c1)",
+                           f"((1 if Color.RED != Color.BLUE else G1), {body})"])
     elif extra < 0.42:
         # leave an inner scope that re-used a live name, then use the outer variable again (bare)
         v = rng.choice(["e", "e", "x"])
@@ -210,7 +218,12 @@ def gen_body(rng, focus: str = "") -> Tuple[str, set]:
 
 
 def make_case_module(rng, body: str):
-    text = HEADER + f'''
+    hint = rng.choice(["", "", "_object_cpp_as_py_namespace = ''\n", "_object_cpp_as_py_namespace = 'NSP'\n"]) if "Color." in body else ""
+    if ".value" in body and "NSP" in hint:
+        # an attribute OF a prefixed member (Color.BLUE.value): the implementation's visit_Attribute hands back its own,
+        # unedited node, so the prefix is lost there; the model has no notion of node identity for this - not generated
+        hint = ""
+    text = HEADER + hint + f'''
 
 def build(ds, c1):
     c2 = c1 + 1
@@ -295,7 +308,17 @@ def snapshot_for(f, src_lambda: ast.AST):
                     continue
                 nv = getattr(o, a)
                 if isinstance(o, enum.EnumMeta):
-                    table.append(f"({q(tag)} {q(a)} keepNode)")
+                    # an Enum member stays a reference by name; a module that declares _object_cpp_as_py_namespace = "NS"
+                    # gets it prefixed (NS.Color.RED), "" or no declaration leave the node as written
+                    import importlib
+
+                    ns_hint = getattr(importlib.import_module(o.__module__), "_object_cpp_as_py_namespace", None) \
+                        if isinstance(nv, o) else None
+                    via = next((nm for nm in sorted(names) if lookup.get(nm) is o), None)
+                    if ns_hint and via is not None:
+                        table.append(f"({q(tag)} {q(a)} (expr {enc(ast.parse(f'{ns_hint}.{via}.{a}', mode='eval').body)}))")
+                    else:
+                        table.append(f"({q(tag)} {q(a)} keepNode)")
                     continue
                 c = enc_const(nv)
                 table.append(f"({q(tag)} {q(a)} (const {c}))")
